@@ -774,3 +774,68 @@ func sortedObjKeys(m map[string]pobj) []string {
 	sort.Strings(ks)
 	return ks
 }
+
+// mirrorCase: a dependency on xpkg.io/acme/provider-a is missing while a DIFFERENT package with
+// the same repository path on another registry (a mirror, installed by hand under its own name)
+// is installed and in the Lock. In every mode the missing dependency is installed at the
+// highest tag satisfying the constraint, and the mirrored package is left alone.
+func mirrorCase(c *kit.Ctx, i int) {
+	cname := fmt.Sprintf("res-mirror/%d", i)
+	if !c.Want(cname) {
+		return
+	}
+	mode := i % 3
+	const orig, mirror, parent = "xpkg.io/acme/provider-a", "mirror.example.net/acme/provider-a", "xpkg.io/acme/config-parent"
+	tags := map[string][]string{orig: {"v0.9.0", "v1.0.0", "v1.2.0", "v1.4.1", "v2.0.0", "edge"}, mirror: {"v1.0.0", "v1.1.0"}}
+	cons := []string{">=v1.0.0, <2.0.0", "<=v1.2.0", ">=v0.9.0"}[(i/3)%3]
+	want := map[string]string{">=v1.0.0, <2.0.0": "v1.4.1", "<=v1.2.0": "v1.2.0", ">=v0.9.0": "v2.0.0"}[cons]
+	mirrorVer := []string{"v1.0.0", "v1.1.0"}[(i/9)%2]
+	w := sim.NewWorld(pkgScheme, uint64(c.Seed)*277+uint64(i))
+	user := w.Client("user")
+	ctx := context.Background()
+	lk := &v1beta1.Lock{ObjectMeta: metav1.ObjectMeta{Name: "lock"}, Packages: []v1beta1.LockPackage{
+		{Name: "config-parent-rev1", Source: parent, Version: "v1.0.0", Type: ptr.To(v1beta1.ConfigurationPackageType), Dependencies: []v1beta1.Dependency{{Package: orig, Constraints: cons, Type: ptr.To(v1beta1.ProviderPackageType)}}},
+		{Name: "mirror-provider-a-rev1", Source: mirror, Version: mirrorVer, Type: ptr.To(v1beta1.ProviderPackageType)},
+	}}
+	if err := user.Create(ctx, lk); err != nil {
+		c.Inconclusive("cannot seed lock: " + err.Error())
+		return
+	}
+	w.MustSeed("user", map[string]any{"apiVersion": pkgGroup + "/v1", "kind": "Configuration", "metadata": map[string]any{"name": "config-parent"}, "spec": map[string]any{"package": parent + ":v1.0.0"}})
+	w.MustSeed("user", map[string]any{"apiVersion": pkgGroup + "/v1", "kind": "Provider", "metadata": map[string]any{"name": "mirror-provider-a"}, "spec": map[string]any{"package": mirror + ":" + mirrorVer}})
+	flags := &feature.Flags{}
+	opts := []resolver.ReconcilerOption{resolver.WithFetcher(&fakeFetcher{tags: tags}), resolver.WithConfigStore(nopConfig{}), resolver.WithDefaultRegistry("xpkg.upbound.io"), resolver.WithFeatures(flags)}
+	if mode > 0 {
+		flags.Enable(features.EnableAlphaDependencyVersionUpgrades)
+		opts = append(opts, resolver.WithNewDagFn(dag.NewUpgradingMapDag))
+		if mode == 2 {
+			opts = append(opts, resolver.WithDowngradesEnabled())
+		}
+	}
+	rec := resolver.NewReconciler(&fake.Manager{Client: w.Client("resolver")}, opts...)
+	var rerr error
+	perr := kit.Try(func() {
+		_, rerr = rec.Reconcile(ctx, reconcile.Request{NamespacedName: types.NamespacedName{Name: "lock"}})
+	})
+	wit := map[string]any{"mode": modeNames[mode], "constraint": cons, "tags": tags, "reconcileError": fmt.Sprint(rerr), "packages": fmt.Sprint(snapshotPkgs(w))}
+	if perr != nil {
+		violate(c, "resolver-panic", cname, firstLine(perr.Error()), wit)
+		return
+	}
+	got := ""
+	for _, o := range snapshotPkgs(w) {
+		switch o.src {
+		case orig:
+			got = o.ver
+		case mirror:
+			if o.ver != mirrorVer {
+				violate(c, "resolver-rewrote-unrelated-package-with-same-repository-path", cname, fmt.Sprintf("the package from %s moved from %s to %s although the missing dependency is %s", mirror, mirrorVer, o.ver, orig), wit)
+			}
+		}
+	}
+	if got != want {
+		violate(c, "resolver-missing-dependency-not-installed-at-highest-satisfying-tag", cname, fmt.Sprintf("dependency %s (%s) is missing; installed version %q, want %q (a package with the same repository path from another registry is installed)", orig, cons, got, want), wit)
+	}
+	c.Eval(cname, true)
+	c.Count("res_mirror_cases", 1)
+}
